@@ -718,6 +718,129 @@ def sweep(ctx, exe, plan_exh, n_random, maxlen, sizes, label=''):
     return total
 
 
+
+# ----------------------------------------------------------------------------------------------
+# grid-combining edits that the Coq model does not cover: minc, __add__, embed (oracle only)
+def _rename_all(g, prefix):
+    """a copy-free way to give a grid names disjoint from another one's: rename every block"""
+    m = dict((b.name, (prefix + b.name[len(prefix):])) for b in g.blocklist)
+    if len(set(m.values())) == len(m): g.rename_blocks(m, fix_blocknames=False)
+    return g
+
+
+def extended_edits(ctx, n_random):
+    """minc / __add__ / embed on real grids built from geometries; the statement is evaluated on the
+    grid each of them leaves (or returns) and again after a few follow-up edits.  An edit that raises
+    (e.g. minc refusing a duplicate matrix block name) ends the case, as everywhere in this check."""
+    import copy
+    T = _impl()
+    rng = random.Random(ctx.seed * 7919 + 11)
+    kinds = Counter()
+    ncase = 0
+
+    def check(g, key, inp, what):
+        v = inv_violations(g)
+        if v:
+            ctx.failure('grid-combining-edits', key, inp, '; '.join(v), 'a consistent grid after ' + what)
+            return False
+        return True
+
+    def follow_up(g, key, inp, what):
+        """a few ordinary edits afterwards: a defect that leaves a dangling reference shows up here at the latest"""
+        names = [b.name for b in g.blocklist]
+        if not names: return
+        try:
+            victim = rng.choice(names)
+            g.delete_block(victim)
+            if not check(g, key, dict(inp, then='delete_block %r' % victim), what + ' followed by delete_block'): return
+            names = [b.name for b in g.blocklist]
+            if len(names) >= 2:
+                a, b = rng.sample(names, 2)
+                g.rename_blocks({a: b, b: a}, fix_blocknames=False)
+                if not check(g, key, dict(inp, then='delete_block %r; swap %r %r' % (victim, a, b)), what + ' followed by delete_block and a swap rename'): return
+            perm = list(names); rng.shuffle(perm)
+            g.reorder(block_names=perm)
+            check(g, key, dict(inp, then='delete_block, swap, reorder'), what + ' followed by delete_block, swap rename and reorder')
+        except Exception:
+            return
+
+    # ---- minc ------------------------------------------------------------------------------
+    fracs = [[0.1, 0.9], [0.05, 0.15, 0.8], [0.02, 0.08, 0.2, 0.7], [5, 15, 80], [0.05, 0.15, 0.2], [0.1, 0.2, 0.3, 0.2, 0.2], [1, 1, 1, 1, 1, 1]]
+    for case_i in range(n_random):
+        nx, ny, nz, at = rng.randint(1, 4), rng.randint(1, 3), rng.randint(1, 4), rng.randint(0, 2)
+        geo, g = make_geo_grid((nx, ny, nz, at))
+        names = [b.name for b in g.blocklist]
+        mode = rng.choice(['all', 'subset', 'subset', 'collide', 'custom-noninjective', 'twice'])
+        vf_ = rng.choice(fracs); planes = rng.randint(1, 3)
+        spacing = rng.choice([50., 20., [30., 40., 60.][:planes]])
+        inp = {'grid': [nx, ny, nz, at], 'op': 'minc', 'mode': mode, 'volume_fractions': vf_, 'num_fracture_planes': planes, 'spacing': spacing}
+        kw = {}
+        blocks = None
+        if mode == 'subset':
+            blocks = rng.sample(names, rng.randint(1, len(names)))
+        elif mode == 'collide':
+            # rename two blocks so that their default matrix names ('1' + name[1:]) coincide with each other but
+            # with no existing block: ' xy z' and '3xy z'
+            rock_blocks = [b.name for b in g.blocklist if 0 < b.volume < 1e25]
+            if len(rock_blocks) >= 2:
+                a, b = rng.sample(rock_blocks, 2)
+                tail = ''.join(rng.choice(LETTERS) for _ in range(2)) + ' ' + rng.choice('123456789')
+                try: g.rename_blocks({a: ' ' + tail, b: '3' + tail}, fix_blocknames=False)
+                except Exception: continue
+                blocks = [' ' + tail, '3' + tail] + [n for n in rock_blocks if n not in (a, b)][:rng.randint(0, 2)]
+                inp['renamed'] = {a: ' ' + tail, b: '3' + tail}
+        elif mode == 'custom-noninjective':
+            kw['matrix_blockname'] = lambda name, level: ('%dzz%s' % (level, name[3:]))[:5]
+        if blocks is not None: inp['blocks'] = blocks
+        ncase += 1; kinds['minc:' + mode] += 1
+        ctx.count(('minc', json.dumps(inp, default=str)))
+        if inv_violations(g): continue
+        try:
+            g.minc(vf_, spacing, planes, blocks, **kw)
+            if mode == 'twice':
+                g.minc(rng.choice(fracs), 35., 1, None, matrix_blockname=lambda name, level: str(level + 4) + name[1:])
+        except Exception as e:
+            kinds['minc raised ' + type(e).__name__] += 1
+            # the refusal itself must not have corrupted what was there before a later successful use: not covered
+            continue
+        key = 'minc:matrix-names-collide' if mode in ('collide', 'custom-noninjective') else 'minc:any'
+        if check(g, key, inp, 'minc'): follow_up(g, key, inp, 'minc')
+    # ---- __add__ and embed ---------------------------------------------------------------------
+    for case_i in range(n_random):
+        _, g1 = make_geo_grid((rng.randint(1, 3), rng.randint(1, 3), rng.randint(1, 3), rng.randint(0, 2)))
+        _, g2 = make_geo_grid((rng.randint(1, 2), rng.randint(1, 2), rng.randint(1, 3), 2))
+        _rename_all(g2, rng.choice(['Q', 'zz', 'K9']))
+        # the subgrid is made small enough to fit into a host block
+        for b in g2.blocklist: b.volume = b.volume * 1e-3
+        op = rng.choice(['add', 'embed-own-objects', 'embed-copied-blocks', 'embed-fresh-blocks', 'embed-own-objects'])
+        inp = {'op': op, 'host_blocks': len(g1.blocklist), 'sub_blocks': len(g2.blocklist)}
+        ncase += 1; kinds[op] += 1
+        ctx.count(('combine', case_i, op))
+        if inv_violations(g1) or inv_violations(g2): continue
+        overlap = set(b.name for b in g1.blocklist) & set(b.name for b in g2.blocklist)
+        try:
+            if op == 'add':
+                res = g1 + g2
+                key = 'add_block:replaces-connected-block' if overlap else '__add__:disjoint-names'
+            else:
+                hosts = [b for b in g1.blocklist if b.volume < 1e25 and b.volume > sum(x.volume for x in g2.blocklist)]
+                if not hosts or overlap: continue
+                host, sub = rng.choice(hosts), rng.choice(g2.blocklist)
+                if op == 'embed-own-objects': blks = [host, sub]
+                elif op == 'embed-copied-blocks': blks = [copy.deepcopy(host), copy.deepcopy(sub)]
+                else: blks = [T.t2block(host.name, host.volume, host.rocktype), T.t2block(sub.name, sub.volume, sub.rocktype)]
+                con = T.t2connection(blks, 1, [1.0, 2.0], 3.0, 0.0)
+                inp.update(host=host.name, sub=sub.name)
+                res = g1.embed(g2, con)
+                key = 'embed:' + op[6:]
+                if res is None: continue
+        except Exception as e:
+            kinds['%s raised %s' % (op, type(e).__name__)] += 1
+            continue
+        if check(res, key, inp, op): follow_up(res, key, inp, op)
+    ctx.oracle_cases('grid-combining-edits', ncase, kinds=dict(kinds))
+
+
 def run(ctx):
     ctx.rule = ('edit sequences on the real t2grid, each compared step by step with the extracted Coq model and checked against the '
                 'statement: (1) exhaustive: from each start grid (empty; 2 blocks + 1 connection; 3-block chain; 4-block ring; 2 rock types) '
@@ -737,7 +860,7 @@ def run(ctx):
                         '(then rename_blocks(fix_blocknames=True) and (False) coincide: both are exercised on the implementation)',
                         'an edit that raises ends the sequence (the state after an exception is not covered)',
                         '"rock type registered" is read by name (block.rocktype.name is a key of grid.rocktype), as t2data/t2grid themselves use it',
-                        'not modelled: __add__, embed, minc (bookkeeping), t2data-level readers']
+                        '__add__, embed and minc are not in the Coq model: the statement is evaluated on the real grid they leave or return (oracle only); t2data-level readers are not covered']
     ctx.stage()
     ok = ctx.coq_build()
     exe = vf.build_driver(ctx)
@@ -748,6 +871,7 @@ def run(ctx):
         plan = [('empty', 3), ('pair', 3), ('chain', 2), ('ring', 2)]
         nrand, sizes = 320, ['small'] * 6 + ['medium'] * 3 + ['large']
     tot = sweep(ctx, exe, plan, nrand, 60, sizes)
+    extended_edits(ctx, 1500 if ctx.thorough else 250)
     ctx.extra['exhaustive'] = True
     ctx.extra['input_distribution'] = {
         'exhaustive': {'sequences': tot['e'].seq, 'op_kinds': dict(tot['e'].opk), 'endings': dict(tot['e'].endk)},
@@ -763,6 +887,16 @@ def run(ctx):
 
 def replay(ctx, data):
     case = data.get('input') or {}
+    if case and 'op' in case and 'ops' not in case:
+        # a grid-combining edit (minc / __add__ / embed): the generator is seeded, so the same sweep revisits the case
+        key = data.get('finding_key')
+        try: ctx.seed = int(data.get('seed', ctx.seed))
+        except Exception: pass
+        extended_edits(ctx, 250)
+        hits = [r for r in ctx.new_failures if r['key'] == key] + ([ctx.findings_seen[key]] if key in ctx.findings_seen else [])
+        for r in hits[:1]: print('replay: %s -> %s' % (json.dumps(r['input'], default=str)[:500], r['observed']))
+        if not hits: print('replay: grid-combining sweep finds the grid consistent after every %s case' % key)
+        return bool(hits)
     if not case or 'ops' not in case: return True
     g = start_grid(case['init'])
     ops = [_t(o) for o in case['ops']]
